@@ -29,3 +29,12 @@ func (f *Freezer) VerifTableBounds(kind string) (deleted, hidden, items uint64, 
 	}
 	return t.itemOffset.Load(), t.itemHidden.Load(), t.items.Load(), true
 }
+
+// VerifSetFreezerBatchLimit sets the chain freezer's per-cycle batch limit (a constant in the shipped
+// tree, turned into a variable by tools/tunerewrite through the build overlay) and returns the old
+// value, so that the simulator can run the capped-batch path with short chains.
+func VerifSetFreezerBatchLimit(n uint64) uint64 {
+	old := freezerBatchLimit
+	freezerBatchLimit = n
+	return old
+}
